@@ -98,6 +98,17 @@ pub fn run(ctx: &Ctx) -> Value {
             let _ = fo;
         }
     }
+    for arg in [i32::MIN, -86_401, -86_400, -86_399, -3600, -1, 0, 1, 59, 3600, 86_399, 86_400, 86_401, i32::MAX] {
+        tw.emit(ev("offset", json!({"arg": arg}), || { let p = |o: Option<FixedOffset>| match o { Some(f) => json!([f.local_minus_utc(), f.utc_minus_local()]), None => json!([]) };
+            json!({"east": p(FixedOffset::east_opt(arg)), "west": p(FixedOffset::west_opt(arg))}) }));
+    }
+    for (k, a, b) in [("none", 0i64, 0i64), ("single", 7, 0), ("ambiguous", 3, 9), ("ambiguous", 9, 3), ("ambiguous", 5, 5)] {
+        use chrono::MappedLocalTime as M;
+        let m: M<i64> = match k { "none" => M::None, "single" => M::Single(a), _ => M::Ambiguous(a, b) };
+        let o = |x: Option<i64>| match x { Some(v) => json!([v]), None => json!([]) };
+        tw.emit(ev("mlt", json!({"k": k, "a": a, "b": b}), || json!({"single": o(m.single()), "earliest": o(m.earliest()), "latest": o(m.latest()),
+            "mapped": match m.map(|v| v + 1) { M::None => json!([]), M::Single(x) => json!([x]), M::Ambiguous(x, y) => json!([x, y]) }})));
+    }
     // sessions: chains of operations on one value; the trace spec checks InstantInRange in every state
     let sessions = ctx.t(500, 20_000);
     for _ in 0..sessions {
